@@ -435,7 +435,15 @@ impl<'a> TimeZoneRef<'a> {
             Err(x) => x,
         };
 
-        let correction = if index > 0 { self.leap_seconds[index - 1].correction } else { 0 };
+        let mut correction = if index > 0 { self.leap_seconds[index - 1].correction } else { 0 };
+
+        // A negative leap second removes a second instead of inserting one, so its correction already applies at its own Unix leap time
+        if index < self.leap_seconds.len() {
+            let leap_second = &self.leap_seconds[index];
+            if leap_second.unix_leap_time == unix_leap_time && leap_second.correction < correction {
+                correction = leap_second.correction;
+            }
+        }
 
         match unix_leap_time.checked_sub(correction as i64) {
             Some(unix_time) => Ok(unix_time),
